@@ -20,6 +20,14 @@ func H_witness() {
 	rt.Reach("end")
 }
 
+// procs makes the number of CPUs the code sees (runtime.GOMAXPROCS(0) / NumCPU) an explicit environment
+// input of the run that follows: the outputs must not depend on it.
+func procs(name string) {
+	if rt.HasParam(name) {
+		rt.SetProcs(rt.Param(name))
+	}
+}
+
 type shortReader struct {
 	r  io.Reader
 	on bool
@@ -72,8 +80,10 @@ func H_diff() {
 	(&hlib.Build{Files: []hlib.File{{Path: "a", Data: O}, {Path: "b", Data: []byte{1}}}}).Write(root + "/old")
 	(&hlib.Build{Files: []hlib.File{{Path: "a", Data: N}, {Path: "c", Data: append([]byte{}, O...)}}}).Write(root + "/new")
 	rt.SchedExplore(false)
+	procs("procs1")
 	p0, s0 := diffOnce(root, false)
 	rt.SchedExplore(true)
+	procs("procs2")
 	p1, s1 := diffOnce(root, rt.Param("slicing") == 1)
 	rt.SchedExplore(false)
 	rt.Assert(len(p0) == len(p1) && rt.BytesEqual(p0, p1), "patch bytes do not depend on the schedule or the read slicing")
@@ -105,11 +115,13 @@ func H_bsdiff() {
 		neu[i] = byte((i / 2) % 2)
 	}
 	rt.SchedExplore(false)
+	procs("procs1")
 	a := series(old, neu, rt.Param("parts"))
 	rt.SchedExplore(true)
+	procs("procs2")
 	b := series(old, neu, rt.Param("parts"))
 	rt.SchedExplore(false)
-	rt.Assert(len(a) == len(b), "same number of control messages under every schedule")
+	rt.Assert(len(a) == len(b), "same number of control messages under every schedule and CPU count")
 	if len(a) == len(b) {
 		for i := range a {
 			same := a[i].Seek == b[i].Seek && a[i].Eof == b[i].Eof && len(a[i].Add) == len(b[i].Add) && len(a[i].Copy) == len(b[i].Copy) &&
@@ -142,10 +154,16 @@ func H_rediff() {
 	(&hlib.Build{Files: []hlib.File{{Path: "a", Data: A}, {Path: "b", Data: Bc}}}).Write(root + "/old")
 	(&hlib.Build{Files: []hlib.File{{Path: "n", Data: N}}}).Write(root + "/new")
 	d := hlib.Diff(root+"/old", root+"/new")
-	o0, m0, err := hlib.Optimize(d.Patch, root+"/old", root+"/new", hlib.RediffOpts{ForceMapAll: true})
+	opts := hlib.RediffOpts{ForceMapAll: true}
+	if rt.HasParam("parts") {
+		opts.Partitions = rt.Param("parts")
+	}
+	procs("procs1")
+	o0, m0, err := hlib.Optimize(d.Patch, root+"/old", root+"/new", opts)
 	hlib.Must(err, "optimize (canonical map order)")
 	rt.MapOrder(1)
-	o1, m1, err := hlib.Optimize(d.Patch, root+"/old", root+"/new", hlib.RediffOpts{ForceMapAll: true})
+	procs("procs2")
+	o1, m1, err := hlib.Optimize(d.Patch, root+"/old", root+"/new", opts)
 	rt.MapOrder(0)
 	hlib.Must(err, "optimize (explored map order)")
 	t0, t1 := int64(-1), int64(-1)
